@@ -16,7 +16,7 @@ def run(ctx):
             p["feed"] = {"seed": rng.randrange(10 ** 6), "kinds": [rng.choice(["intarray", "lists", "intframe", "objarray", "objframe"])]}
         elif i % 3 != 0:      # two thirds of the histories draw their containers per call (arrays in either order, frames, lists, int dtypes, views)
             C.choose(rng, p, C.BATCH_KINDS + C.LOOSE_BATCH_KINDS)
-        ts.append(D.run(p, D.history(rng, p, nb), seed=rng.randrange(10 ** 6), frame=rng.random() < 0.6))
+        ts.append(D.run(p, D.history(rng, p, nb, bads=(i % 2 == 0)), seed=rng.randrange(10 ** 6), frame=rng.random() < 0.6))      # (every other history with refused calls in between)
     for i in range(24 if q else 200):
         t = D.grazing(rng)
         if t:
